@@ -251,8 +251,18 @@ def _attrs_before(src, pos):
     return list(reversed(attrs))
 
 
+def _item_start(src, fn_pos):
+    """Start of the item whose ``fn`` keyword is at fn_pos: visibility / const / async / unsafe / extern qualifiers are part of it."""
+    i = fn_pos
+    while True:
+        m = re.search(r"(?:pub(?:\s*\([^)]*\))?|const|async|unsafe|extern(?:\s*\"[^\"]*\")?)\s+$", src[max(0, i - 40):i])
+        if not m:
+            return i
+        i = max(0, i - 40) + m.start()
+
+
 def _callable(name, src, fn_pos, file, line_of):
-    attrs = _attrs_before(src, fn_pos)
+    attrs = _attrs_before(src, _item_start(src, fn_pos))
     par_open = src.index("(", fn_pos)
     par_close = _match(src, par_open, "(", ")")
     params = _fn_params(src[par_open + 1:par_close - 1])
@@ -352,7 +362,7 @@ class RustInterface:
                 i = par_close
         # free functions
         for m in re.finditer(r"\bfn\s+(\w+)\s*(?:<[^>(]*>)?\s*\(", src):
-            attrs = _attrs_before(src, m.start())
+            attrs = _attrs_before(src, _item_start(src, m.start()))
             if any(re.match(r"pyfunction\b", a) for a in attrs):
                 c, _a, _e = _callable(m.group(1), src, m.start(), rel, line_of)
                 self.functions[m.group(1)] = c
